@@ -103,6 +103,14 @@ def binops(ctx, B, a, b, ints=True):
         # (a // b) cut at m gives back [a, b]
         ctx.eq('law:(a//b)-cut-back', call(lambda: (vs(r[0:a[1]]), vs(r[a[1]:]))), (a, b), **det)
     ctx.check('operand-unchanged', (A.ival, A.size, Bv.ival, Bv.size) == (a[0], a[1], b[0], b[1]), (A.ival, A.size, Bv.ival, Bv.size), a + b)
+    # the augmented forms compute the same values, and whoever still holds the old left operand sees it unchanged
+    import operator as OP
+    for op, f, want in (('+', OP.iadd, None), ('-', OP.isub, None), ('&', OP.iand, None), ('|', OP.ior, None), ('^', OP.ixor, None),
+                        ('*', OP.imul, m_mul(a, b[0])), ('//', OP.ifloordiv, m_cat(a, b))):
+        X = B(*a); keep = X
+        r = call(f, X, Bv)
+        res_ok(ctx, 'op:' + op, r, m_bin(op, a, b) if want is None else want, op=op + '=', **det)
+        ctx.check('operand-unchanged', (keep.ival, keep.size, Bv.ival, Bv.size) == (a[0], a[1], b[0], b[1]), (keep.ival, keep.size, Bv.ival, Bv.size), a + b, op=op + '=', alias_of_left_operand=True)
 
 def intops(ctx, B, a, y):
     A = B(*a)
@@ -200,6 +208,10 @@ def run_index(case, ctx, rng):
             Z = B(*a); r = call(Z.__setitem__, i, v)
             w = list(bits); w[i] = v
             ctx.check('setitem', not is_exc(r) and (Z.ival, Z.size) == fl(w) and Z.mask == M(n), vs(Z) if not is_exc(r) else r, fl(w), idx=i, v=v, **det)
+            # the same bit given as a 1-bit vector, as a bool, and read from another vector (b[i] = c[j])
+            for form, val in (('Bits(v,1)', B(v, 1)), ('bool', bool(v)), ('c[j]', B(2 if v else 5, 3)[1])):
+                Z = B(*a); r = call(Z.__setitem__, i, val)
+                ctx.check('setitem', not is_exc(r) and (Z.ival, Z.size) == fl(w) and Z.mask == M(n), vs(Z) if not is_exc(r) else r, fl(w), idx=i, v=v, form=form, **det)
     cnt = 0
     for st in SL:
         for sp in SL:
